@@ -77,7 +77,8 @@ def run_case(tree, qq, idx, c):
     env = dict(os.environ)
     env.update(ENV0)
     if c.env:
-        env.update(c.env)
+        # raw bytes in environment values (8-bit peer strings): hand them through unchanged
+        env.update({k: v.encode("latin1").decode("utf-8", "surrogateescape") for k, v in c.env.items()})
     env.pop("RELAYCLIENT", None)
     env.update(qq.env("s%d" % idx, exitcode=c.qexit, err=c.qtext, die=c.qdie))
     if c.databytes is not None:
@@ -111,7 +112,15 @@ def make_record(c, out, subs):
     qtext = ""
     if c.qtext is not None and len(c.qtext) > 2:
         qtext = c.qtext[:1] if c.qtext[:1] in ("D", "Z") else "X"
-    return {"proto": c.proto, "over": bool(c.over), "hops": bool(c.hops), "sbad": bool(c.sbad), "rc": c.rc, "cut": c.cut is not None,
+    e = dict(ENV0)
+    if c.env:
+        e.update(c.env)
+    B = lambda x: list(x.encode("latin1"))
+    helo = c.helo if c.proto == "smtp" else ""
+    pf = {"known": True, "host": B(e.get("TCPREMOTEHOST", "unknown")), "helo": B(helo), "hashelo": c.proto == "smtp", "info": B(e.get("TCPREMOTEINFO", "")),
+          "hasinfo": "TCPREMOTEINFO" in e, "ip": B(e.get("TCPREMOTEIP", "unknown")), "local": B(e.get("TCPLOCALHOST") or e.get("TCPLOCALIP") or "unknown"),
+          "proto": B(c.proto.upper())}
+    return {"pf": pf, "proto": c.proto, "over": bool(c.over), "hops": bool(c.hops), "sbad": bool(c.sbad), "rc": c.rc, "cut": c.cut is not None,
             "qinv": qinv, "qcomplete": bool(complete), "qexit": c.qexit if qinv else 0, "qsig": bool(qinv and c.qdie == "sig"), "qtext": qtext,
             "acks": acks, "body": list(c.body), "got": list(got), "recv": list(recv), "xs": list(c.sender), "gs": list(gs),
             "xr": [list(r) for r in c.rcpts], "gr": [list(r) for r in gr], "note": c.note}
